@@ -256,7 +256,8 @@ Definition exec_edge_new (S : path) (s d : ref) (sa da : bool) (p : prim) (eb : 
       end
   end.
 
-Fixpoint exec (S : path) (d : decl) (st : state) {struct d} : res state :=
+(* [Os]: the scopes of the enclosing bodies (innermost first), [S]: the current scope *)
+Fixpoint exec (Os : list path) (S : path) (d : decl) (st : state) {struct d} : res state :=
   match d with
   | DObj (ups, ns) p body =>
       match ns with
@@ -269,9 +270,10 @@ Fixpoint exec (S : path) (d : decl) (st : state) {struct d} : res state :=
               let st1 := mkState os1 (edges st) in
               match p with
               | PNull =>
-                  (* deleting the object whose body is being compiled: the rest of that body is
+                  (* deleting an object whose body is being compiled: the rest of that body is
                      compiled into a detached map — outside the fragment *)
-                  if is_prefix (fkey D) (fkey S) then Unsup else Ok (delete_obj (fkey D) st1)
+                  if existsb (fun X => is_prefix (fkey D) (fkey X)) (S :: Os) then Unsup
+                  else Ok (delete_obj (fkey D) st1)
               | _ =>
                   let st2 := match p with
                              | PStr v => mkState (upd_obj (fkey D) (set_prim v) os1) (edges st)
@@ -282,7 +284,7 @@ Fixpoint exec (S : path) (d : decl) (st : state) {struct d} : res state :=
                       (fix go (ds : list decl) (st : state) : res state :=
                          match ds with
                          | [] => Ok st
-                         | d :: ds' => match exec D d st with Ok st' => go ds' st' | r => r end
+                         | d :: ds' => match exec (S :: Os) D d st with Ok st' => go ds' st' | r => r end
                          end) ds st2
                   end
               end
@@ -311,13 +313,13 @@ Fixpoint exec (S : path) (d : decl) (st : state) {struct d} : res state :=
       end
   end.
 
-Fixpoint exec_list (S : path) (ds : list decl) (st : state) : res state :=
+Fixpoint exec_list (Os : list path) (S : path) (ds : list decl) (st : state) : res state :=
   match ds with
   | [] => Ok st
-  | d :: ds' => match exec S d st with Ok st' => exec_list S ds' st' | r => r end
+  | d :: ds' => match exec Os S d st with Ok st' => exec_list Os S ds' st' | r => r end
   end.
 
-Definition run_state (p : program) : res state := exec_list [] p init.
+Definition run_state (p : program) : res state := exec_list [] [] p init.
 
 (* ---- the compiled board ---- *)
 
